@@ -29,6 +29,9 @@ WORLD_FIELDS = dict(
     _components=TDict(TypeS, TSet(Ent)),
     _entities=TDict(Ent, TDict(TypeS, Comp)),
     _dead_entities=TSet(Ent),
+    # ghost (not a field of the real class): identifiers that owned nothing when delete_entity
+    # marked them; maintained by the contract of delete_entity, never by the code
+    _never=TSet(Ent),
     _sorted_processors=TList(Proc),
     _processors=TDict(TypeS, Proc),
     id_generator=IdGen,
@@ -48,6 +51,10 @@ WF_W = {
            "typeof(self._entities[e][t]) == t and self._entities[e][t] != None) "
            "for e in Ent for t in Type)", 'prop'),
     'I4': ("not (None in self._entities) and not (None in self._components)", 'aux'),
+    # C05: a pending deletion mark refers to an existing entity - unless the identifier owned
+    # nothing when it was marked (ghost _never); only such a mark can make process() fail, once
+    'M1': ("all(implies(x in self._dead_entities, x in self._entities or x in self._never) "
+           "for x in Ent)", 'prop'),
     # usage assumption carried as an invariant: a component instance is attached at
     # most once (add_component/create_entity require it of their arguments)
     'U1': ("all(implies(e in self._entities and t in self._entities[e] and "
@@ -339,13 +346,16 @@ def register(spec):
     # ---------------------------------------------------------- delete_entity
     C(W + 'delete_entity', params=dict(P, entity=Ent, immediate=TBool),
       props=['C01', 'C02', 'C05'], requires=wfall,
-      modifies=['self._components', 'self._entities', 'self._dead_entities'] + DISP_STATE,
+      modifies=['self._components', 'self._entities', 'self._dead_entities', 'self._never'] + DISP_STATE,
       ensures={
           'wf': ("wf(self)", 'prop'),
           'deferred-only-marks': (
-              'implies(not immediate, unchanged_except(self, "_dead_entities") and '
+              'implies(not immediate, unchanged_except(self, "_dead_entities,_never") and '
               'all((x in self._dead_entities) == (x in old(self._dead_entities) or x == entity) '
               'for x in Ent) and all(cnt(c) == old(cnt(c)) for c in Call))'),
+          'remembers-a-mark-on-an-unknown-identifier': (
+              'all((x in self._never) == (x in old(self._never) or (x == entity and not immediate and '
+              'not (entity in old(self._entities)))) for x in Ent)'),
           'immediate-removes-row': (
               'implies(immediate, not (entity in self._entities) and '
               'not (entity in self._dead_entities) and '
@@ -357,6 +367,14 @@ def register(spec):
       raises={'KeyError': {'only-unknown-immediate': 'immediate and not (entity in old(self._entities))',
                            'unchanged': 'unchanged_except(self, "")'},
               '$OtherException': {'from-callback-only': 'immediate'}})
+    def note_never(X, env):
+        # ghost: a deferred deletion of an identifier that owns nothing is remembered
+        me, ent = deref(env['self']), deref(env['entity'])
+        ents = deref(X.read_field(me.t, '_entities'))
+        nev = deref(X.read_field(me.t, '_never'))
+        cond = z3.And(z3.Not(X._z(X.truth(env['immediate']))), z3.Not(ents.dom[ent.t]))
+        X.write_field(me.t, '_never', SetV(nev.K, z3.If(cond, z3.Store(nev.arr, ent.t, True), nev.arr)))
+    spec.contracts[W + 'delete_entity'].ghost_prologue = note_never
     spec.loop(W + 'delete_entity', 0, index='i', seq='types', invariants={
         'wf': 'wf(self)',
         'row-shrinks': (
@@ -484,14 +502,16 @@ def register_mutators(spec):
         'registered': 'implies(has_events(typeof(component)), wref(component) in self._handlers)',
         'flag-untouched': 'self._dispatch_enabled == old(self._dispatch_enabled)',
     }
-    C(W + 'add_component', params=dict(P, entity=Ent, component=Comp), props=['C01', 'C02'],
+    C(W + 'add_component', params=dict(P, entity=Ent, component=Comp), props=['C01', 'C02', 'C05'],
       requires=wfall + ['component != None', 'entity != None', 'alive(component)',
                         # the instance is not attached anywhere else
                         'all(implies(e in self._entities and t in self._entities[e] and '
                         'self._entities[e][t] == component, e == entity) '
                         'for e in Ent for t in Type)'],
       modifies=['self._components', 'self._entities', 'self._dead_entities'] + DISP_STATE,
-      ensures=ens, raises={'$OtherException': {'from-callback-only': 'True'}})
+      # a callback that raises (on_remove of the replaced component, on_add of the new one)
+      # leaves a well-formed world: in particular no deletion mark for an entity that is gone
+      ensures=ens, raises={'$OtherException': {'from-callback-only': 'True', 'wf': ("wf(self)", 'prop')}})
 
 
 _register0 = register
@@ -528,7 +548,8 @@ def register_lifecycle(spec):
           # behaviour); the mark is gone, so the next call does not fail on it again
           'KeyError': {'wf': ("wf(self)", 'prop'),
                        'only-never-existing': 'any(x in old(self._dead_entities) and '
-                                              'not (x in old(self._entities)) for x in Ent)',
+                                              'not (x in old(self._entities)) and x in old(self._never) '
+                                              'for x in Ent)',
                        'mark-consumed': 'all(implies(x in self._dead_entities, '
                                         'x in old(self._dead_entities)) for x in Ent)'},
           '$OtherException': {'wf': ("wf(self)", 'prop'),
@@ -888,7 +909,7 @@ def register(spec):     # noqa: F811
 def register_clear(spec):
     C = spec.contract
     P = dict(self=World)
-    ALL = ['self._components', 'self._entities', 'self._dead_entities', 'self._sorted_processors',
+    ALL = ['self._components', 'self._entities', 'self._dead_entities', 'self._never', 'self._sorted_processors',
            'self._processors', 'self.id_generator', 'self._dispatch_enabled'] + DISP_STATE
     HAVOC = ['self._components', 'self._entities', 'self._dead_entities', 'self._events',
              'self._handlers', 'self._event_queue', 'self._sorted_processors', 'self._processors',
